@@ -873,6 +873,9 @@ func (c *Ctx) mapLen(st *State, guard string, mi mapInfo, m string) string {
 	l := tIte(tEq(m, "null"), bvU(0, 64), tSel(lc, m))
 	row := tSel(dom, m)
 	isZero := tEq(tSel(lc, m), bvU(0, 64))
+	if strings.Contains(m, "!q") || strings.Contains(guard, "!q") || strings.Contains(m, "@P") {
+		return l // under a binder (or inside a predicate template): the witness facts cannot be stated at top level
+	}
 	c.assume(guard, tImp(isZero, fmt.Sprintf("(forall ((k %s)) (! (not (select %s k)) :pattern ((select %s k))))", mi.ksort, row, row)))
 	wit := c.fresh("witness", mi.ksort)
 	c.assume(guard, tImp(tNot(isZero), tSel(row, wit)))
